@@ -13,8 +13,11 @@ Definition registry := list (string * list (string * Z)).
 Definition tls_registry : registry := [
   ("TlsContentType", [("CHANGE_CIPHER_SPEC", 20); ("ALERT", 21); ("HANDSHAKE", 22); ("APPLICATION_DATA", 23); ("HEARTBEAT", 24)]);
   ("TlsAlertLevel", [("WARNING", 1); ("FATAL", 2)]);
-  ("TlsAlertDescription", [("CLOSE_NOTIFY", 0); ("UNEXPECTED_MESSAGE", 10); ("BAD_RECORD_MAC", 20); ("RECORD_OVERFLOW", 22);
-     ("HANDSHAKE_FAILURE", 40); ("BAD_CERTIFICATE", 42); ("UNSUPPORTED_CERTIFICATE", 43); ("CERTIFICATE_REVOKED", 44);
+  (* RFC 5246 7.2 lists, besides the alerts TLS 1.3 kept, decryption_failed_RESERVED(21), decompression_failure(30),
+     no_certificate_RESERVED(41), export_restriction_RESERVED(60) and no_renegotiation(100): values of the enumeration that peers of
+     SSL 3.0 - TLS 1.2 send (the first transcription had followed the library in leaving them out) *)
+  ("TlsAlertDescription", [("CLOSE_NOTIFY", 0); ("UNEXPECTED_MESSAGE", 10); ("BAD_RECORD_MAC", 20); ("DECRYPTION_FAILED", 21); ("RECORD_OVERFLOW", 22);
+     ("DECOMPRESSION_FAILURE", 30); ("HANDSHAKE_FAILURE", 40); ("NO_CERTIFICATE", 41); ("EXPORT_RESTRICTION", 60); ("NO_RENEGOTIATION", 100); ("BAD_CERTIFICATE", 42); ("UNSUPPORTED_CERTIFICATE", 43); ("CERTIFICATE_REVOKED", 44);
      ("CERTIFICATE_EXPIRED", 45); ("CERTIFICATE_UNKNOWN", 46); ("ILLEGAL_PARAMETER", 47); ("UNKNOWN_CA", 48); ("ACCESS_DENIED", 49);
      ("DECODE_ERROR", 50); ("DECRYPT_ERROR", 51); ("PROTOCOL_VERSION", 70); ("INSUFFICIENT_SECURITY", 71); ("INTERNAL_ERROR", 80);
      ("INAPPROPRIATE_FALLBACK", 86); ("USER_CANCELED", 90); ("MISSING_EXTENSION", 109); ("UNSUPPORTED_EXTENSION", 110);
